@@ -35,7 +35,13 @@ pub struct Call {
 
 impl Call {
     fn run(&self) -> Outcome {
-        generate_with(self.src, self.include, self.cfg.options())
+        // under the controlled scheduler the call must run on the registered thread itself (the watchdog of
+        // `generate_with` would move it to an unregistered thread whose yield points the scheduler cannot see)
+        if TID.with(|t| t.get()).is_some() {
+            generate_with_unguarded(self.src, self.include, self.cfg.options())
+        } else {
+            generate_with(self.src, self.include, self.cfg.options())
+        }
     }
 }
 
@@ -62,7 +68,16 @@ pub fn alphabet() -> Vec<Call> {
         // identifiers that are Rust keywords (naga accepts them): whatever the call does with them - on this tree it
         // panics while printing - it must do the same everywhere, and with the formatter off it must not look for one
         Call { name: "keyword-ident", src: SHADER_KEYWORD, cfg: Config::default(), include: None },
+        // two different modules whose token text exceeds 64 KiB, formatter on (pipe-buffer sized hand-offs to the formatter)
+        Call { name: "BIG1-rustfmt", src: big_source(0), cfg: Config { rustfmt: true, ..Config::default() }, include: None },
+        Call { name: "BIG2-rustfmt", src: big_source(1), cfg: Config { rustfmt: true, ..full }, include: None },
     ]
+}
+
+/// A and B with a 70 KB comment (leaked once: the alphabet is built a handful of times per process).
+fn big_source(which: usize) -> &'static str {
+    let (base, ch) = if which == 0 { (SHADER_A, "a") } else { (SHADER_B, "b") };
+    Box::leak(format!("// {}\n{base}", ch.repeat(70_000)).into_boxed_str())
 }
 
 fn outcome_digest(o: &Outcome) -> String {
@@ -394,7 +409,7 @@ pub fn run(tier: &str) -> i32 {
             Err(e) => machinery(&format!("C18 reference run failed: {e}")),
         }
     }
-    for (i, want) in [(0usize, "ok:"), (1, "ok:"), (2, "err:ParseError"), (3, "err:NonConsecutiveBindGroups"), (4, "panic:"), (5, "ok:"), (6, "ok:"), (7, "ok:"), (8, "ok:"), (9, "ok:"), (10, "err:ValidationError"), (11, "ok:"), (12, "ok:")] {
+    for (i, want) in [(0usize, "ok:"), (1, "ok:"), (2, "err:ParseError"), (3, "err:NonConsecutiveBindGroups"), (4, "panic:"), (5, "ok:"), (6, "ok:"), (7, "ok:"), (8, "ok:"), (9, "ok:"), (10, "err:ValidationError"), (11, "ok:"), (12, "ok:"), (14, "ok:"), (15, "ok:")] {
         if !reference[&i].starts_with(want) {
             machinery(&format!("C18 alphabet input {} does not behave as designed: {}", alpha[i].name, reference[&i]));
         }
@@ -453,9 +468,13 @@ pub fn run(tier: &str) -> i32 {
             (vec![vec![5], vec![1]], 2, 200_000),
             (vec![vec![7], vec![7]], 2, 200_000),
             (vec![vec![7], vec![0], vec![1]], 1, 200_000),
+            (vec![vec![14], vec![15]], 2, 200_000),
+            (vec![vec![5], vec![5]], 2, 200_000),
+            (vec![vec![14], vec![14]], 1, 200_000),
+            (vec![vec![5], vec![12]], 1, 200_000),
         ]
     } else {
-        vec![(vec![vec![0], vec![1]], 2, 50_000), (vec![vec![0], vec![0]], 1, 50_000), (vec![vec![0, 1], vec![1]], 1, 50_000), (vec![vec![6], vec![1], vec![0]], 1, 50_000), (vec![vec![7], vec![1]], 1, 50_000), (vec![vec![5], vec![1]], 1, 50_000)]
+        vec![(vec![vec![14], vec![15]], 1, 50_000), (vec![vec![5], vec![5]], 1, 50_000), (vec![vec![0], vec![1]], 2, 50_000), (vec![vec![0], vec![0]], 1, 50_000), (vec![vec![0, 1], vec![1]], 1, 50_000), (vec![vec![6], vec![1], vec![0]], 1, 50_000), (vec![vec![7], vec![1]], 1, 50_000), (vec![vec![5], vec![1]], 1, 50_000)]
     };
     // the same thread programs again with yield points *inside* the stage walk and the type closure
     // (state that lives only for the duration of one section is invisible at section granularity)
@@ -614,6 +633,8 @@ pub fn run(tier: &str) -> i32 {
     // ---- (4) syscall monitor
     let strace_note = syscall_monitor(&mut rep);
     rep.set("syscall_monitor", json!(strace_note));
+    let strace_fmt_note = syscall_monitor_fmt(&mut rep);
+    rep.set("syscall_monitor_formatter_on", json!(strace_fmt_note));
 
     // ---- audit
     let a = audit();
@@ -629,7 +650,7 @@ pub fn run(tier: &str) -> i32 {
     rep.traces_validated = rep.evaluations;
     rep.sample(json!({"history": ["A", "B", "A-rustfmt"], "inputs": {"A": SHADER_A, "B": SHADER_B}}));
     rep.sample(json!({"schedule_threads": [["A"], ["B"]], "yield_points": ["gen:parsed", "gen:validated", "gen:groups", "gen:stages", "gen:structs", "gen:consts", "gen:bindgroups", "gen:vertex", "gen:compute", "gen:entries", "gen:overrides", "gen:assembled"]}));
-    rep.rule = format!("(1) all call sequences of length <= {depth} over a 6-input alphabet and over one source under 4 option sets (validator accepts / rejects / off / everything on) built to collide (shaders A and B declare the same struct / variable / entry names with different types, stages and groups; a parse error; non-consecutive groups; an input that panics inside generation; A with rustfmt) in one fresh process each, every result compared with the same input alone in a fresh process; (2) real threads running real calls under a controlled scheduler (12 section yield points per call), all schedules within the stated preemption bound per thread program; (3) {seeds} enumerated hash seeds (getrandom interposer) x working directory {{/, empty dir, a dir where the include path exists, inherited}} x environment {{inherited, cleared, noisy, no formatter on PATH}}; (4) strace monitor and source audit. Oracle: byte-identical text / same error variant as the isolated reference.");
+    rep.rule = format!("(1) all call sequences of length <= {depth} over a 6-input alphabet and over one source under 4 option sets (validator accepts / rejects / off / everything on) built to collide (shaders A and B declare the same struct / variable / entry names with different types, stages and groups; a parse error; non-consecutive groups; an input that panics inside generation; A with rustfmt) in one fresh process each, every result compared with the same input alone in a fresh process; (2) real threads running real calls under a controlled scheduler (12 section yield points per call), all schedules within the stated preemption bound per thread program; (3) {seeds} enumerated hash seeds (getrandom interposer) x working directory {{/, empty dir, a dir where the include path exists, inherited}} x environment {{inherited, cleared, noisy, no formatter on PATH}}; (4) strace monitors (formatter off: no file/process/network call at all; formatter on: the calling process creates / writes / removes no file) and source audit. Oracle: byte-identical text / same error variant as the isolated reference.");
     rep.finish()
 }
 
@@ -690,6 +711,68 @@ pub fn trace_child() -> i32 {
     }
     let _ = std::fs::metadata("/VERIF_MARK_END");
     0
+}
+
+/// Child for the second syscall monitor: marker, calls with the formatter ON (small and > 64 KiB modules), marker.
+pub fn trace_fmt_child() -> i32 {
+    let a = alphabet();
+    let _ = std::fs::metadata("/VERIF_WARMUP");
+    // on the main thread itself (strace -f labels every line with the thread id; only the main thread's are judged)
+    let _ = generate_with_unguarded(a[5].src, a[5].include, a[5].cfg.options());
+    let _ = std::fs::metadata("/VERIF_MARK_BEGIN");
+    for i in [5usize, 14, 12, 15] {
+        let _ = generate_with_unguarded(a[i].src, a[i].include, a[i].cfg.options());
+    }
+    let _ = std::fs::metadata("/VERIF_MARK_END");
+    0
+}
+
+/// With the formatter on, the calling process may spawn the formatter and talk to it through pipes - nothing else:
+/// no file is created, written, renamed or removed by the calling process itself (the formatter's own accesses, in
+/// its own process, are its business).
+fn syscall_monitor_fmt(rep: &mut Report) -> Value {
+    let log = root().join("target").join("c18-strace-fmt.log");
+    let _ = std::fs::remove_file(&log);
+    let exe = std::env::current_exe().unwrap();
+    let st = Command::new("strace").args(["-f", "-e", "trace=file", "-o"]).arg(&log).arg(&exe).args(["c18-trace-fmt", "x"]).env("VERIF_ROOT", root()).stdout(Stdio::null()).stderr(Stdio::null()).status();
+    match st {
+        Ok(s) if s.success() => {}
+        other => return json!({"ran": false, "reason": format!("strace unavailable here: {other:?}")}),
+    }
+    let text = std::fs::read_to_string(&log).unwrap_or_default();
+    let main_pid = text.lines().next().and_then(|l| l.split_whitespace().next()).unwrap_or("").to_string();
+    let (mut inside, mut seen_begin) = (false, false);
+    let mut calls = vec![];
+    for line in text.lines() {
+        if line.contains("/VERIF_MARK_BEGIN") {
+            inside = true;
+            seen_begin = true;
+            continue;
+        }
+        if line.contains("/VERIF_MARK_END") {
+            inside = false;
+            continue;
+        }
+        if !inside || !line.starts_with(&main_pid) {
+            continue;
+        }
+        // threads of the calling process share its pid prefix only if they are the main thread: std::process::Command
+        // forks from the calling thread, so lines of the fork child carry another pid and are skipped above
+        let writes = line.contains("O_WRONLY") || line.contains("O_RDWR") || line.contains("O_CREAT") || line.contains("O_TRUNC") || line.contains("O_APPEND");
+        let mutating = ["unlink(", "unlinkat(", "rename(", "renameat(", "renameat2(", "mkdir(", "mkdirat(", "rmdir(", "creat(", "symlink(", "symlinkat(", "link(", "linkat(", "chmod(", "fchmodat(", "truncate(", "mknod("].iter().any(|s| line.contains(s));
+        if (writes && !line.contains("\"/dev/null\"")) || mutating {
+            calls.push(line.chars().take(180).collect::<String>());
+        }
+    }
+    if !seen_begin {
+        return json!({"ran": false, "reason": "markers not found in the strace log"});
+    }
+    rep.states += 1;
+    rep.evaluations += 4;
+    if !calls.is_empty() {
+        rep.violation("syscalls|rustfmt=on".to_string(), format!("generation with the formatter on creates / writes / removes files in the calling process: {}", calls[0]), json!({"observed": calls.iter().take(10).collect::<Vec<_>>()}));
+    }
+    json!({"ran": true, "file_mutating_syscalls_of_the_calling_process_between_markers": calls.len(), "calls_traced": 4})
 }
 
 fn syscall_monitor(rep: &mut Report) -> Value {
